@@ -10,13 +10,17 @@ PROP = Prop(
     rule="share (protocol half): scenario = 1-3 share-group members of this tree (PollFetches or PollRecords(2|5), per record Ack accept 55% / release 10% / "
          "reject 7% / renew 10% (half of them then accept) / nothing 18% (auto-accept at the next poll), processing longer than the acquisition lock with "
          "probability 0/15/40 %, FlushAcks after a poll with probability 0/30/100 %, members joining late and leaving early, Close) x real kfake (1-2 brokers, "
-         "1-2 partitions, lock 1 or 2 s, leader moves) while a plain producer and 0-2 transactional producers (commit/abort markers) write; history = API events "
+         "1-2 partitions, lock 1 or 2 s, leader moves) while a plain producer and 0-2 transactional producers (commit/abort markers) write; half of the "
+         "scenarios inject faults (20 or 40 %): ShareFetch requests that carry nothing but piggybacked acks and ShareAcknowledge requests are answered, through a "
+         "kfake Control hook and instead of being handled, with a retriable acknowledge error (REQUEST_TIMED_OUT / KAFKA_STORAGE_ERROR) for every acked partition "
+         "(one broker; the session epoch the broker then lags by is compensated per member), and 2-4 % of all ShareFetch/ShareAcknowledge requests lose their "
+         "connection before or after the broker handled them; faults stop when the members wind down; history = API events "
          "(records returned with delivery count, Ack calls, implied auto-accepts, callbacks with error, FlushAcks, Close) and wire events (every acknowledgement "
          "batch, every per-partition acknowledge result, every acquired range, virtual timestamps); non-trivial = at least 10 records returned and 3 wire batches. "
          "ackr build: one case = the pending user acknowledgements (offset, status, source, epoch; the same state appended twice for "
          "renew-then-terminal) and gap ranges of one partition; structured cases cut an offset line into acquired blocks that are either "
          "delivered records acked with a mix of accept/release/reject/renew/undecided in call order, shuffled or reversed, or holes (gap 0 / "
-         "release 2), over one or several fetches (epochs, sources), up to 30 blocks (> 12 elements leaves Go's stable insertion sort); 12 % "
+         "release 2), over one or several fetches (epochs, sources), a quarter of them with gap ranges queued twice / extended / sub-ranges, up to 30 blocks (> 12 elements leaves Go's stable insertion sort); 12 % "
          "malformed (overlapping/inverted gaps, gaps over entries, negative offsets, two states at one offset, odd statuses: compared with the "
          "model, not judged); thorough adds every input with <= 2 entries over offsets 0..3 x statuses {0,1,2,4} (and 3 entries x {1,2}) and "
          "<= 2 gaps over the intervals of 0..3 x types {0,2}. non-trivial = at least two decided entries/gap ranges. "
@@ -36,15 +40,19 @@ PROP = Prop(
                   "KafkaApis.validateAcknowledgementBatches; not part of any theorem",
                   "Lean compiler/runtime for the driver"],
     assumptions=["offsets are Kafka offsets: 0 <= offset < 2^63-1 (an entry at offset -1 is swallowed by the lastOffset = -1 sentinel; compared, not judged)",
-                 "gap ranges are well-formed, pairwise disjoint, of type gap (0) or release (2), and contain no decided user entry (what processSharePartition / "
-                 "releaseUndeliverable enqueue)",
+                 "gap ranges are well-formed, of type gap (0) or release (2), may repeat or overlap (a requeued gap and the gap of a re-acquisition; merged since "
+                 "4fd6241) provided overlapping ones have the same type (the merged range keeps the type of its first member), and contain no decided user entry "
+                 "(the code does not look at entry/gap overlap at all; what processSharePartition / releaseUndeliverable enqueue never overlaps a record)",
                  "statuses passed to tryAck are 1..4 (Record.Ack / MarkAcks reject anything else)",
                  "reachability of the failing class in the real flow was shown outside the check (harness/cmd/c12/e2eprobe: transactional topic, poll all, accept all -> "
                  "ShareFetch piggybacks [0,2][4,5][3,3][6,6]); that probe also shows kfake losing the piggybacked ack error when the ShareFetch long-polls",
                  "protocol half: a decision counts as confirmed when the request that carried it was answered without error for the partition and the next callback for the "
                  "partition reported no error; the same offset can carry decisions of several deliveries of one member, of which a request carries one (observed: "
                  "buildAckRanges dedupes by offset); after an error callback the monitor no longer demands that the partition's unsent decisions reach the wire; "
-                 "no connection faults are injected in share scenarios",
+                 "an acknowledgement answered with a retriable error is not resolved: its decision is unsent again, must be carried by a later request (or be "
+                 "dropped with an error callback) and keeps waiting for its callback, so FlushAcks must keep waiting for it; a request whose response was lost with "
+                 "its connection leaves the client ignorant of the outcome: its decisions count as unsent again, so the client's retry is not a second acknowledgement",
+                 "retriable acknowledge errors are injected only in one-broker scenarios and only into requests that add or forget no partition",
                  "a share scenario that never becomes quiescent because kgo's loopShareFetch spins while an ack timer is armed and nothing can be fetched "
                  "(goroutines created at a high rate under a loopShareFetch frame while no event is logged; <= 1 s in real time, endless under virtual time) is "
                  "inconclusive: verdict -, counted as scen.share.inconclusive-ack-timer-spin (about 0.5 % of scenarios); any other hang is C12.scenario-hang"],
@@ -64,7 +72,7 @@ MANIFEST = {
             "again after its accept/reject was confirmed without error; an accept/reject is only answered with success to the member that holds the record; "
             "Close releases undecided records; FlushAcks returns after the callbacks of all earlier acknowledgements; every decision reaches the wire by "
             "quiescence. Tie: history correspondence with real kgo share consumers x real kfake in synctest bubbles (transaction markers, slow processing past "
-            "the lock, renew, churn, leader moves).",
+            "the lock, renew, churn, leader moves, injected retriable acknowledge errors on piggybacked and standalone acknowledgements, connection cuts).",
     "note": "Trusted: Lean kernel; the hand-written pure model (validated differentially, not verified); the monitor's ledgers and event vocabulary; harness and wire "
             "decoding; Go's sort modelled as stable; Kafka offsets below 2^63-1; gap ranges disjoint from each other and from decided entries; tryAck statuses 1..4. "
             "Theorems quantify over all histories; the correspondence samples schedules. Real-goroutine tryAck runs are judged by the Spec only.",
